@@ -41,7 +41,7 @@ fn reply_bytes(s: &Script) -> Option<Vec<u8>> {
     let profile = serde_json::json!({"id": s.reply_id, "name": s.reply_name, "properties": []}).to_string().into_bytes();
     let err = br#"{"error":"ForbiddenOperationException","errorMessage":"scripted"}"#;
     Some(match s.kind.as_str() {
-        "ok" => response("200 OK", "application/json", &profile),
+        "ok" | "slowok" => response("200 OK", "application/json", &profile),
         "204" => b"HTTP/1.1 204 No Content\r\nConnection: close\r\n\r\n".to_vec(),
         "403" => response("403 Forbidden", "application/json", err),
         "500" => response("500 Internal Server Error", "application/json", err),
@@ -90,6 +90,10 @@ async fn serve(mut sock: TcpStream, st: Arc<Mutex<State>>) {
         g.seen.push(seen);
         g.script.clone()
     };
+    if script.kind == "slowok" {
+        // the session service takes a moment: logins that overlap in time are still separate questions
+        tokio::time::sleep(std::time::Duration::from_millis(300)).await;
+    }
     if let Some(bytes) = reply_bytes(&script) {
         let _ = sock.write_all(&bytes).await;
         let _ = sock.flush().await;
